@@ -127,7 +127,7 @@ PROPS = {
         ],
     },
     "C01": {
-        "modules": ["Hannibal.Props.C01", "Hannibal.Props.C01Current"],
+        "modules": ["Hannibal.Props.C01", "Hannibal.Props.C01Current", "Hannibal.Props.C01TryForce"],
         "theorems": ["Hannibal.C01_holds", "Hannibal.C01_current", "Hannibal.monC01_step"],
         "cases": {"quick": {"C01": 1200, "C11": 600}, "thorough": {"C01": 20000, "x:C01": 320, "C11": 6000, "C12": 3000, "C07": 3000}},
         "assumptions": COMMON_ASSUMPTIONS + [
@@ -179,8 +179,9 @@ PROPS = {
         "theorems": ["Hannibal.C05_holds", "Hannibal.C05_current", "Hannibal.wellWired05_current",
                      "Hannibal.C05q_holds", "Hannibal.C05q_current", "Hannibal.monC05q_orig",
                      "Hannibal.C05d_holds", "Hannibal.C05d_current", "Hannibal.C05df_holds", "Hannibal.drun_grun"],
-        "cases": {"quick": {"C05": 1500, "C09@life09": 600},
-                  "thorough": {"C05": 20000, "x:C05": 320, "C15": 3000, "C13": 3000, "C09@life09": 12000}},
+        "cases": {"quick": {"C05": 1500, "C09@life09": 600, "C16@sys16": 500},
+                  "thorough": {"C05": 20000, "x:C05": 320, "C15": 3000, "C13": 3000, "C09@life09": 12000,
+                               "C16@sys16": 8000}},
         "assumptions": COMMON_ASSUMPTIONS + [
             "'drains, then terminates gracefully once the last strong handle is gone' (monC05q) is proved for every run "
             "with fresh operation ids (C05q_holds; opIdsFresh is checked on every real trace; witness c05qReuseWitness "
@@ -193,6 +194,9 @@ PROPS = {
             "'broker subscriptions never keep it alive': the holder clause of monC05q is also run on every subscriber of "
             "the broker family (C09@life09: subscribers end by stop, by ctx.stop and by the last drop, before and after "
             "publications); the broker's table and buffers are not holders the trace knows of",
+            "'a parent's child list keeps it alive': the actor-tree family is run through the system acceptor "
+            "(C16@sys16: monC05 / monC05q on every actor's projection of the system run, with the parent's registrations "
+            "as holders)",
             "service registry, parent's child list and broker subscriptions as holders are multi-actor: they appear "
             "in single-actor traces as ordinary strong / weak handles held by the harness's registry and broker ops",
             "wiring hypothesis WellWired05 (strong kinds own both closures, weak kinds own nothing and must upgrade) "
